@@ -145,12 +145,15 @@ def k_sparse_cp(c, rng, q, pat):
     ns, nf = q["shape"]
     m, i, j = sparse_pattern(rng, ns, nf, q["spkind"])
     v = rng.randint(0, 40, len(i)).astype(np.float32)
+    if q["zero_label"] and len(i) > 2:
+        # a few pixels without a number (dead pixels after a flat-field division): not "<= threshold", so labelled
+        v[rng.randint(0, len(i), 1 + len(i) // 50)] = np.nan
     lab = buf(len(i), np.int32, pat)
     n = c.sparse_connectedpixels(v, i, j, float(q["th"]), lab)
     lab2 = buf(len(i), np.int32, pat)
     Z = buf((ns + 2) * (nf + 2), np.int32, pat)
     n2 = c.sparse_connectedpixels_splat(v, i, j, float(q["th"]), lab2, Z, ns, nf)
-    return dict(n=n, labels=lab, n2=n2, labels2=np.where(v > q["th"], lab2, 0), sorted=c.sparse_is_sorted(i, j))
+    return dict(n=n, labels=lab, n2=n2, labels2=np.where(~(v <= q["th"]), lab2, 0), sorted=c.sparse_is_sorted(i, j))
 
 
 def k_sparse_props(c, rng, q, pat):
@@ -214,6 +217,11 @@ def k_tosparse(c, rng, q, pat):
         val = buf((ns, nf), dt, pat)
         n = getattr(c, name)(img, msk, row, col, val, q["cut"])
         out[name] = (n, row.ravel()[:n].copy(), col.ravel()[:n].copy(), val.ravel()[:n].copy())
+        if name == "tosparse_u32" and n > 0:
+            # this variant takes output arrays of any length: exactly as long as the result is enough
+            r3, c3, v3 = buf(n, np.uint16, pat), buf(n, np.uint16, pat), buf(n, dt, pat)
+            n3 = c.tosparse_u32(img, msk, r3, c3, v3, q["cut"])
+            out["tosparse_u32_exact"] = (n3, r3.copy(), c3.copy(), v3.copy())
     m = (image(rng, ns, nf, q["imkind"]) > 0)
     nnz = int(m.sum())
     if nnz > 0:
